@@ -544,7 +544,50 @@ def rule_o5(ctx):
         raise Unrecognised("C16.O5", "src/isla", f"only {n} memoised functions found")
 
 
+def rule_o6(ctx):
+    """Fresh node identities: (a) no dict memo in derivation_tree.py stores freshly built nodes for reuse; in expand_one_step every open leaf gets its own children;
+    (b) decoding a tree keeps the global id counter above EVERY restored node's id, not only the root's."""
+    m = ctx.repo.module(DT, "C16.O6")
+    n_stores = 0
+    for q, fn in m.functions():
+        if not isinstance(fn, ast.FunctionDef):
+            continue
+        tested = {src(c.comparators[0]) for c in ast.walk(fn) if isinstance(c, ast.Compare) and len(c.ops) == 1 and isinstance(c.ops[0], (ast.In, ast.NotIn))}
+        for a in ast.walk(fn):
+            if isinstance(a, ast.Assign) and isinstance(a.targets[0], ast.Subscript) and src(a.targets[0].value) in tested:
+                builds = [c for c in ast.walk(a.value) if isinstance(c, ast.Call) and (call_name(c) or "").split(".")[-1] in ("DerivationTree", "from_parse_tree")]
+                if builds:
+                    n_stores += 1
+                    ctx.viol("O6-fresh-nodes", f"{DT}:{q}", f"{src(a.targets[0])[:40]} does not cache built nodes", site(a),
+                             f"`{src(a.targets[0].value)}` memoises node objects built by `{src(builds[0])[:50]}`: every later lookup hands out the SAME nodes (same ids) - two open leaves expanded "
+                             "with the same alternative share their children, find_node() of one returns the other's path and replace_path()/substitute() change the wrong subtree")
+    e = ctx.repo.func(DT, "DerivationTree.expand_one_step", "C16.O6")
+    c = f"{DT}:DerivationTree.expand_one_step"
+    comps = [x for x in ast.walk(e) if isinstance(x, (ast.DictComp, ast.ListComp, ast.For)) and "self.open_leaves()" in (src(x.generators[0].iter) if not isinstance(x, ast.For) else src(x.iter))]
+    builds = [x for x in ast.walk(e) if isinstance(x, ast.Call) and call_name(x) == "DerivationTree"]
+    if not comps or not builds:
+        raise Unrecognised("C16.O6", c, "iteration over the open leaves / construction of the new children not found")
+    per_leaf = [b for b in builds if any(b in list(ast.walk(cp)) for cp in comps)]
+    if not per_leaf and n_stores == 0:
+        raise Unrecognised("C16.O6", c, "the new children are not built inside the iteration over the open leaves: whether every leaf gets its own nodes cannot be established")
+    if per_leaf:
+        ctx.ok("O6-fresh-nodes", c, "children built per open leaf", site(per_leaf[0]), "DerivationTree(child, ...) inside the iteration over self.open_leaves()")
+    fj = ctx.repo.func(DT, "DerivationTree.from_json", "C16.O6")
+    c2 = f"{DT}:DerivationTree.from_json"
+    bumps = [a for a in ast.walk(fj) if isinstance(a, ast.Assign) and src(a.targets[0]) == "DerivationTree.next_id"]
+    if not bumps:
+        raise Unrecognised("C16.O6", c2, "id-counter adjustment not found")
+    helper = next((d for d in ast.walk(fj) if isinstance(d, ast.FunctionDef) and d.name == "from_dict"), None)
+    for b in bumps:
+        inside = helper is not None and b in list(ast.walk(helper))
+        uses_max = "max(" in src(b.value)
+        ctx.check(inside or uses_max, "O6-id-counter", c2, "id counter raised above every restored node's id", site(b),
+                  f"`{' '.join(src(b).split())}` runs once for the decoded root only: inner nodes usually have larger ids than the root (after expand_one_step / replace_path), so nodes created after "
+                  "decoding a pickled tree reuse ids that already occur in it - find_node() returns wrong paths", "adjusted per restored node (inside from_dict) or with max over all nodes")
+
+
 def run(ctx) -> str:
+    ctx.guarded("O6", lambda: rule_o6(ctx))
     ctx.guarded("T2", lambda: rule_t2(ctx))
     ctx.guarded("H2", lambda: rule_h2(ctx))
     ctx.guarded("O5", lambda: rule_o5(ctx))
